@@ -79,6 +79,7 @@ let eval inp obs =
     let impl_groups = List.filter (fun g -> g <> []) (split_on ";" obs) in
     let impl_arr = Array.of_list impl_groups in
     let s = ref s0 and acc = ref [] and mtrace = ref [] and mgroups = ref [] and igroups = ref [] in
+    let overlap_at = ref [] in   (* indices of PAR groups where the implementation's observation equals open_overlap *)
     let iok = ref (Array.length impl_arr = List.length items) in
     List.iteri (fun i it ->
       let ig = if i < Array.length impl_arr then impl_arr.(i) else [] in
@@ -107,6 +108,7 @@ let eval inp obs =
               (try List.sort compare (if ie = "-" then [] else String.split_on_char ',' ie) = sort_evs e with _ -> false)
           | _ -> false) in
         let (s2, r1, r2, e) = (try List.find matches cands with Not_found -> c1) in
+        if (not (matches c1)) && (not (matches c2)) && c3 <> [] && matches (List.hd c3) then overlap_at := i :: !overlap_at;
         let etok = (match ig with ["par"; _; _; ie] when matches (s2, r1, r2, e) -> ie | _ -> evs_tok e) in
         (match ig with
          | ["par"; i1; i2; ie] -> (match parse_res i1, parse_res i2 with
@@ -117,13 +119,28 @@ let eval inp obs =
         s := s2; acc := ["par"; res_tok r1; res_tok r2; etok] :: !acc) items;
     let model_s = String.concat " " (List.concat_map (fun l -> ";" :: l) (List.rev !acc)) in
     if has_par then begin
-      let spec_ok = Some (!iok && conc_ok (List.rev !igroups)) in
+      (* the counting clauses, group by group: where do they first fail? *)
+      let first_fail gs =
+        let rec go v i = function
+          | [] -> None
+          | g :: r -> (match group_apply v g with Some v' -> go v' (i + 1) r | None -> Some i) in
+        go cview0 0 gs in
+      let ifail = if !iok then first_fail (List.rev !igroups) else Some (-1) in
+      let mfail = first_fail (List.rev !mgroups) in
+      (* the recorded defect: two OpenDB of a closed name overlap, both open the underlying DB.
+         Tagged only when the clauses fail at exactly that group and the observation is open_overlap's;
+         from there on the counting view is undefined, later groups are judged model-vs-impl only. *)
+      let tagged = (match ifail with Some i when List.mem i !overlap_at -> true | _ -> false) in
+      let spec_ok = Some (ifail = None) in
       { default_verdict with
         model_obs = tokens model_s;
         spec_ok = spec_ok;
-        model_spec_ok = true;   (* the model may follow open_overlap (code as it is): judged by spec_ok on impl *)
+        model_spec_ok = (match mfail with None -> true | Some i -> List.mem i !overlap_at);
         nontrivial = true;
-        note = (match spec_ok with Some false -> "overlapping calls violate CachedProducerSpec.conc_ok (counting clauses)" | _ -> "") }
+        note = (match ifail with
+                | None -> ""
+                | Some i when tagged -> Printf.sprintf "counting clauses fail at group %d: overlapping first opens why=concurrent-first-open" i
+                | Some i -> Printf.sprintf "overlapping calls violate CachedProducerSpec.conc_ok (counting clauses) at group %d" i) }
     end else begin
       let ops = List.map (function Seq o -> o | Par _ -> failwith "par") items in
       let by_name = List.for_all by_name_op ops in
